@@ -249,19 +249,27 @@ def i5_wiring(ctx):
     slots = [k for k in CG.W.slots if k[1] in ('interrupt_handler', 'handler', 'semaphore_handler') and k[0].startswith('Teakra::')]
     ctx.require(len(slots) >= 5, 'peripheral interrupt slots not found: %s' % slots)
     for key in sorted(slots):
-        ts = [t for t in CG.W.slots[key]['targets'] if t.get('func') is not None and is_library(t['func']) and t['kind'] == 'lambda'
+        # (forwarding lambdas are brought into bind form by the facts normalisation)
+        ts = [t for t in CG.W.slots[key]['targets'] if t.get('func') is not None and is_library(t['func']) and t['kind'] in ('bind', 'lambda')
               and t['func']['id'].startswith('Teakra::Teakra::Impl::Impl(')]
         ctx.inst(R)
         if not ts:
             ctx.report(R, ('src/teakra.cpp', 'Teakra::Teakra::Impl::Impl', 0), 0, '%s::%s' % key, 'interrupt slot is not bound by the facade constructor')
             continue
         for t in ts:
-            g = F.get(t['fn'])
             ctx.oblig(R)
-            txt = render_stmt(g['body'], g) if g else ''
-            m = re.match(r'^\{\(call Teakra::ICU::TriggerSingle on \(\. this Teakra::Teakra::Impl::icu\) (\d+)\)\}$', txt) or \
-                re.match(r'^\{\(call Teakra::ICU::TriggerSingle on f:Teakra::Teakra::Impl::icu (\d+)\)\}$', txt)
-            if not m or int(m.group(1)) >= 16:
+            okb = False
+            txt = ''
+            if t['kind'] == 'bind':
+                obj = render(t.get('obj'), t['func']) if t.get('obj') is not None else ''
+                args = [const_value(a) for a in t.get('args', [])]
+                txt = '%s on %s %s' % (short_fn(t.get('fn') or ''), obj, args)
+                okb = short_fn(t.get('fn') or '') == 'Teakra::ICU::TriggerSingle' and obj in ('(& f:Teakra::Teakra::Impl::icu)', '(& (. this Teakra::Teakra::Impl::icu))') \
+                    and len(args) == 1 and args[0] is not None and 0 <= args[0] < 16
+            else:
+                g = F.get(t['fn'])
+                txt = render_stmt(g['body'], g) if g else ''
+            if not okb:
                 ctx.report(R, t['func'], t.get('site'), '%s::%s' % key, 'slot handler is not icu.TriggerSingle(constant < 16): ' + txt[:120])
     for key, want in (((ICU, 'on_interrupt'), 'Teakra::Processor::SignalInterrupt'), ((ICU, 'on_vectored_interrupt'), 'Teakra::Processor::SignalVectoredInterrupt')):
         ts = [t for t in CG.W.slots.get(key, {'targets': []})['targets'] if t.get('func') is not None and is_library(t['func'])]
@@ -281,12 +289,14 @@ def i5_wiring(ctx):
             ctx.report(R, g, g['body'], 'Processor::' + nm.split('(')[0], 'does not forward to the interpreter latch')
     g = ctx.fn('Teakra::Interpreter::SignalInterrupt(unsigned int)')
     ctx.inst(R)
-    if render_stmt(g['body'], g) != '{(= ([] f:Teakra::Interpreter::interrupt_pending $0) 1)}':
+    if [render_stmt(st_, g) for st_ in g['body'].get('body', []) if st_.get('k') != 'assert'] != ['(= ([] f:Teakra::Interpreter::interrupt_pending $0) 1)']:
         ctx.report(R, g, g['body'], 'Interpreter::SignalInterrupt', 'does not latch interrupt_pending[i] = true')
     g = ctx.fn('Teakra::Interpreter::SignalVectoredInterrupt(unsigned int,bool)')
     ctx.inst(R)
     w = {}
     for st in g['body'].get('body', []):
+        if st.get('k') == 'assert':
+            continue
         if st.get('k') == 'opcall' and st.get('op') == '=':
             p = field_path(st['args'][0])
             w[p[1] if p else '?'] = render(st['args'][1], g)
